@@ -585,11 +585,12 @@ Definition cpp_bytes_to_hex (junk : bytes) (input : bytes) (upper : bool) : byte
   cpp_cstring out.
 
 (* bytes_from_hex(str, len): byte_array vec(len / 2); r = ascon_bytes_from_hex(vec.data(), vec.size(), str, len);
-   r != -1 ? vec : byte_array() *)
+   r != -1 ? (vec.resize(r), vec) : byte_array()      (the resize is /repo commit 79074c9; before it white space in
+   the input left trailing zero bytes) *)
 Definition cpp_bytes_from_hex (chars : bytes) : bytes :=
   let vec := zeros (length chars / 2) in
   match c_from_hex (length chars / 2) chars with
-  | Some written => set_at vec 0 written
+  | Some written => firstn (length written) (set_at vec 0 written)
   | None => []
   end.
 (* bytes_from_hex(const char *str): str ? strlen(str) : 0 *)
